@@ -255,6 +255,19 @@ func runC01(c *mc.Ctx) {
 
 	h160 := hashFamily(20, c.Thorough())
 	h256 := hashFamily(32, c.Thorough())
+	// hashes whose LEGACY string lies entirely inside a character class (no lower-case letter, only
+	// CashAddr symbols, only hex digits, ...), constructed per version byte: see classhash.go
+	{
+		found := map[string]int{}
+		for _, ch := range classHashes() {
+			h160 = append(h160, ch.Hash)
+			found[ch.Class]++
+		}
+		c.Note("legacy_strings_inside_a_character_class", found)
+		if len(found) < 4 {
+			c.NotExhaustive("the search for legacy strings inside character classes found fewer than four classes")
+		}
+	}
 	var scripts [][]byte
 	scripts = append(scripts, []byte{})
 	for i := 0; i < 256; i++ {
